@@ -539,7 +539,10 @@ func c13Mutants(seeds []c13Seed, pairs bool) []c13Mutant {
 	// M9: every request that carries a body once more with the body length not announced (chunked)
 	n := len(out)
 	for i := 0; i < n; i++ {
-		if out[i].Req.Body == "" || out[i].Req.Fault != nil {
+		if out[i].Req.Fault != nil {
+			continue
+		}
+		if out[i].Req.Body == "" && !(out[i].Op == "seed" && (out[i].Req.Method == "PROPFIND" || out[i].Req.Method == "MKCOL" || out[i].Req.Method == "REPORT" || out[i].Req.Method == "PROPPATCH")) {
 			continue
 		}
 		m := out[i]
